@@ -1222,8 +1222,8 @@ def _sub(f, kind, nth, tok):
 
 def witnesses():
     w = {}
-    # .msh: a 1024-character piece where a keyword is expected
-    w['msh_token'] = ('msh', [tw('$MeshFormat'), NL, tf(struct.pack('>d', 4.1).hex()), ti(0), ti(8), NL, tx('A' * 1024), NL])
+    # .msh: a file that is one 1024-character piece: `fscanf("%s", line)` with `char line[1024]`
+    w['msh_token'] = ('msh', [tx('A' * 1024), NL])
     # vertex index nnode+1 / 50000001 of the last cell
     w['tri_index'] = ('tri', _sub(write_tri(TRI3), 'index', 2, ti(4)))
     w['tri_index_far'] = ('tri', _sub(write_tri(TRI3), 'index', 2, ti(50000001)))
@@ -1885,3 +1885,43 @@ FIELDS_SER = _mpi('formats_fields', gen_fields_mpi, None)
 FIELDS_RST_MPI = _mpi('formats_rst_mpi', gen_rst_mpi, [2, 3])
 FIELDS_SNAP_MPI = _mpi('formats_snap_mpi', gen_snap_mpi, [2], site=SITE_SNAP_BCAST)
 FIELDS_SNAP_MPI.crash_site = SITE_SNAP_BCAST
+
+
+# ------------------------------------------------------------------------------------------------
+# the witnesses as Lean text (checks/c20.py verifies that Props/C20Formats.lean contains exactly these)
+# ------------------------------------------------------------------------------------------------
+def lean_tok(t):
+    if t == 'n:':
+        return '.nl'
+    if t == 'r:':
+        return '.crlf'
+    if t.startswith('i:'):
+        v = int(t[2:])
+        return '.int %d' % v if v >= 0 else '.int (%d)' % v
+    if t.startswith('f:'):
+        return '.num 0x%s' % t[2:]
+    if t.startswith('w:'):
+        return '.word "%s"' % t[2:]
+    if t.startswith('x:'):
+        s = bytes.fromhex(t[2:]).decode()
+        if len(s) > 100 and s == s[0] * len(s):
+            return ".word (String.ofList (List.replicate %d '%s'))" % (len(s), s[0])
+        return '.word "%s"' % s
+    raise ValueError(t)
+
+
+def lean_tokens(toks):
+    return '[' + ', '.join(lean_tok(t) for t in toks) + ']'
+
+
+def lean_witness_text():
+    out = {}
+    for k, (ext, toks) in WITNESS.items():
+        out[k] = lean_tokens(toks)
+    for k, b in list(BWITNESS.items()) + list(FWITNESS.items()) + [('snap_ok', SNAP_OK)]:
+        out[k] = '[' + ', '.join('%d' % x for x in b) + ']'
+    return out
+
+
+# a well-formed one-field version-2 .snap for a one-vertex grid (52 bytes)
+SNAP_OK = write_snap(2, 1, [[ONE]], names=[''])[0]
